@@ -1,5 +1,6 @@
 (* C15 — crash freedom and containment of malformed input. Property theorems only. *)
-From Coq Require Import List ZArith.
+From Coq Require Import List ZArith String.
+From RG Require Import Pure.Rid Pure.ValueDec Proofs.ValueDecProofs.
 From RG Require Import Base.Value Comp.ResSub Proofs.ResSubProofs Comp.Throttle Pure.Lcs Pure.LcsTab.
 Import ListNotations.
 
@@ -23,3 +24,45 @@ Print Assumptions C15_diff_indices_in_range.
 Theorem C15_throttle_no_panic : forall (n : nat) ops, (1 <= n)%nat -> wf (init n) ops -> crashed (run n ops) = false.
 Proof. intros n ops Hn Hwf. exact (proj1 (throttle_bound n ops Hn Hwf)). Qed.
 Print Assumptions C15_throttle_no_panic.
+
+(* Value objects supplied by services (codec.Value.UnmarshalJSON, model Pure/ValueDec.v, tied by the `valuedec`
+   correspondence suite). A value is taken for a resource reference only if the object carried a non-empty valid rid,
+   neither action nor data, and no member of a wrong JSON type; it is soft exactly when the soft flag is set. *)
+Theorem C15_value_reference_sound : forall f r,
+  classify f = ORef r \/ classify f = OSoft r ->
+  f_err f = false /\ f_rid f = Some r /\ r <> [] /\ is_valid_rid r true = true /\
+  f_action f = None /\ f_data f = None /\ (classify f = OSoft r <-> f_soft f = true).
+Proof. exact reference_sound. Qed.
+Print Assumptions C15_value_reference_sound.
+
+Theorem C15_value_delete_sound : forall f,
+  classify f = ValueDec.ODelete ->
+  f_err f = false /\ f_rid f = None /\ f_action f = Some (s2l "delete"%string) /\ f_data f = None.
+Proof. exact delete_sound. Qed.
+Print Assumptions C15_value_delete_sound.
+
+Theorem C15_value_data_sound : forall f id,
+  classify f = ValueDec.OData id \/ classify f = OPrimData id ->
+  f_err f = false /\ f_rid f = None /\ f_action f = None /\
+  exists v, f_data f = Some (v, id) /\ (classify f = ValueDec.OData id <-> (v = JObj \/ v = JArr)).
+Proof. exact data_sound. Qed.
+Print Assumptions C15_value_data_sound.
+
+(* Ambiguous, ill-typed and empty value objects are rejected: acceptance needs exactly one of rid / action / data. *)
+Theorem C15_value_accepted_has_one_marker : forall f,
+  is_err (classify f) = false -> f_err f = false /\ markers f = 1%nat.
+Proof. exact accepted_has_one_marker. Qed.
+Print Assumptions C15_value_accepted_has_one_marker.
+
+(* A member of the wrong JSON type anywhere in the object rejects the value whatever follows it; members with other
+   keys are ignored. *)
+Theorem C15_value_type_error_rejects : forall ms1 ms2 k v id,
+  f_err (store (read ms1) (k, v, id)) = true -> decode (TObj (ms1 ++ (k, v, id) :: ms2)) = OErr EJson.
+Proof. exact type_error_rejects. Qed.
+Print Assumptions C15_value_type_error_rejects.
+
+Theorem C15_value_foreign_member_ignored : forall ms k v id,
+  key_is k "rid"%string = false -> key_is k "soft"%string = false -> key_is k "action"%string = false -> key_is k "data"%string = false ->
+  decode (TObj (ms ++ [(k, v, id)])) = decode (TObj ms).
+Proof. exact foreign_member_ignored. Qed.
+Print Assumptions C15_value_foreign_member_ignored.
